@@ -24,7 +24,7 @@ import ast
 from ..repo import AnalysisError, FuncInfo, dotted, own_nodes
 from ..sublist import SubInterp, is_sub
 from .c07 import registry
-from .common import key_lambda
+from .common import key_lambda, one_shot_captures
 
 MANIFEST = {
     "text": (
@@ -653,6 +653,11 @@ def run(ctx):
             n += 1
     chk.floor("R04.a", n, 6, "rules")
     tie_breaker(ctx)
+    nc = one_shot_captures(
+        ctx, "R04.c", lambda f: f.module.name.startswith("job_shop_lib.dispatching.rules"),
+        "from its second call on the rule applies none of its scoring functions",
+    )
+    chk.analysed["rule_closures_inspected"] = nc
     solver(ctx)
     metadata(ctx)
     purity(ctx)
